@@ -655,6 +655,8 @@ namespace cgi {
 		void async_send_respnse(handler const &h)
 		{
 			header_.content_length=body_.size();
+			// header_ still holds the record that was received: its padding is not ours
+			header_.padding_length=0;
 			if(body_.size() % 8 != 0) {
 				header_.padding_length=8 - (body_.size() % 8);
 				body_.resize(body_.size() + header_.padding_length);
